@@ -94,6 +94,12 @@ def oracle(case, obs):
         ups = [dict(x.split("=", 1) for x in o.split()[2:] if "=" in x) for o in obs if o.startswith("up ")]
         if not ups:
             return [{"oracle": "no_result", "detail": "no upload observation: %s" % [o for o in obs if "setup" in o][:2]}]
+        for o in obs:
+            if o.startswith("mv "):
+                m = dict(x.split("=", 1) for x in o.split()[1:] if "=" in x)
+                if int(m.get("name_not_hash", "0")) > 0:
+                    fails.append({"oracle": "server_blob_name_not_hash", "via": "move",
+                                  "detail": "POST move with a destination name that is not the blob's hash: status %s, the server now stores %s blob(s) whose name is not the SHA-256 of its bytes" % (m.get("status"), m.get("name_not_hash"))})
         for u in ups:
             good = u["body"] == "correct"
             st = int(u.get("status", "0"))
@@ -147,20 +153,26 @@ def model_input(cases, impl):
         for n in sorted(steps):
             if "events" in steps[n]:
                 out.append("c17 %s %d %s" % (cid, n, " ".join(steps[n]["events"]))); k += 1
+        for n in sorted(steps):
+            if "events" in steps[n]:
+                out.append("c17 %s tail %d %s" % (cid, n, " ".join(steps[n]["events"])))
         if k == 0: out.append("c17 %s" % cid)
     return out
 
 
 def impl_projection(obs):
     out = []
+    tails = []
     for o in obs:
         t = o.split()
         if len(t) >= 2 and t[1] == "reduced":
             out.append("%s reduced %s" % (t[0], " ".join(sorted(t[2:]))))
+        elif len(t) >= 3 and t[1] == "tail":
+            tails.append("%s tail %s %s" % (t[0], t[2], " ".join(sorted(t[3:]))))
         elif t and t[0] == "up":
             u = dict(x.split("=", 1) for x in t[2:] if "=" in x)
             out.append("up %s body=%s final=%s leftovers=%s" % (t[1], u.get("body"), u.get("final"), u.get("leftovers", "")))
-    return out
+    return out + tails
 
 
 def canon(lines):
